@@ -61,5 +61,6 @@ def gen_pool_exhaustion(rng):
 
 def add_pool_suites(c, samples):
     n = 6 if c.tier == "quick" else 60
-    scs = [gen_pool_exhaustion(c.rng) for _ in range(n)]
+    from checks.brokerlib import corpus
+    scs = corpus(c.rng, ["ids-return-after-recipient-vanished"]) + [gen_pool_exhaustion(c.rng) for _ in range(n)]
     run_scenarios(c, "writer-tiny-pool-exhaustion", scs, samples)
